@@ -16,17 +16,17 @@ Definition nsim (i i' : oid) : Prop := same_name M i i' /\ reg M tm i /\ reg M t
 Definition rsim (ty ty' : tref) : Prop :=
   ref_wrappers ty' = ref_wrappers ty /\ nsim (unwrap ty) (unwrap ty').
 Definition isim (a a' : oid) : Prop :=
-  exists ia n py ty df d ds ia' ty' ds',
-    mget M a = Some (OInput ia n py ty df d ds) /\ mget M a' = Some (OInput ia' n py ty' df d ds') /\ rsim ty ty'.
+  exists ia n py ty df d ds ia' ty',
+    mget M a = Some (OInput ia n py ty df d ds) /\ mget M a' = Some (OInput ia' n py ty' df d ds) /\ rsim ty ty'.
 Definition fsim (f f' : oid) : Prop :=
-  exists n py ty args d dp r sb ds ty' args' ds',
+  exists n py ty args d dp r sb ds ty' args',
     mget M f = Some (OField n py ty args d dp r sb ds) /\
-    mget M f' = Some (OField n py ty' args' d dp r sb ds') /\ rsim ty ty' /\ Forall2 isim args args'.
+    mget M f' = Some (OField n py ty' args' d dp r sb ds) /\ rsim ty ty' /\ Forall2 isim args args'.
 Definition esim (e e' : oid) : Prop :=
-  exists n v d dp ds ds', mget M e = Some (OEnumV n v d dp ds) /\ mget M e' = Some (OEnumV n v d dp ds').
+  exists n v d dp ds, mget M e = Some (OEnumV n v d dp ds) /\ mget M e' = Some (OEnumV n v d dp ds).
 Definition tsim (t t' : oid) : Prop :=
-  exists n k d ms ifs r ds ms' ifs' ds',
-    mget M t = Some (OType n k d ms ifs r ds) /\ mget M t' = Some (OType n k d ms' ifs' r ds') /\
+  exists n k d ms ifs r ds ms' ifs',
+    mget M t = Some (OType n k d ms ifs r ds) /\ mget M t' = Some (OType n k d ms' ifs' r ds) /\
     Forall2 nsim ifs ifs' /\
     match k with
     | Kobject | Kinterface => Forall2 fsim ms ms'
@@ -54,22 +54,22 @@ Proof. intros H. induction 1 as [|a a' l l' Ha Hl IH]; simpl; [reflexivity|]. re
 
 Lemma input_eq a a' : isim a a' -> sx_input M tm' a' = sx_input M tm a.
 Proof.
-  intros (ia & n & py & ty & df & d & ds & ia' & ty' & ds' & A & B & C). unfold sx_input. rewrite A, B.
+  intros (ia & n & py & ty & df & d & ds & ia' & ty' & A & B & C). unfold sx_input. rewrite A, B.
   rewrite (ref_eq _ _ C). reflexivity.
 Qed.
 
 Lemma field_eq f f' : fsim f f' -> sx_field M tm' f' = sx_field M tm f.
 Proof.
-  intros (n & py & ty & args & d & dp & r & sb & ds & ty' & args' & ds' & A & B & C & D). unfold sx_field. rewrite A, B.
+  intros (n & py & ty & args & d & dp & r & sb & ds & ty' & args' & A & B & C & D). unfold sx_field. rewrite A, B.
   rewrite (ref_eq _ _ C), (map_F2 isim _ _ _ _ input_eq D). reflexivity.
 Qed.
 
 Lemma enumv_eq e e' : esim e e' -> sx_enumv M e' = sx_enumv M e.
-Proof. intros (n & v & d & dp & ds & ds' & A & B). unfold sx_enumv. rewrite A, B. reflexivity. Qed.
+Proof. intros (n & v & d & dp & ds & A & B). unfold sx_enumv. rewrite A, B. reflexivity. Qed.
 
 Lemma type_eq t t' : tsim t t' -> sx_type M tm' t' = sx_type M tm t.
 Proof.
-  intros (n & k & d & ms & ifs & r & ds & ms' & ifs' & ds' & A & B & C & D). unfold sx_type. rewrite A, B.
+  intros (n & k & d & ms & ifs & r & ds & ms' & ifs' & A & B & C & D). unfold sx_type. rewrite A, B.
   rewrite (map_F2 nsim _ _ _ _ named_eq C).
   destruct k; try reflexivity.
   - rewrite (map_F2 fsim _ _ _ _ field_eq D). reflexivity.
@@ -95,7 +95,7 @@ Definition entry_sim (e e' : str * oid) : Prop :=
 Lemma entry_kind e e' : entry_sim e e' -> tkind M (snd e') = tkind M (snd e).
 Proof.
   intros (_ & _ & [(_ & -> & _)|(_ & _ & Ht)]); [reflexivity|].
-  destruct Ht as (n & k & d & ms & ifs & r & ds & ms' & ifs' & ds' & A & B & _). unfold tkind. rewrite A, B. reflexivity.
+  destruct Ht as (n & k & d & ms & ifs & r & ds & ms' & ifs' & A & B & _). unfold tkind. rewrite A, B. reflexivity.
 Qed.
 
 Lemma types_eq l l' :
@@ -133,7 +133,7 @@ Proof.
   intros (_ & Hn & [(Hb & He' & Hk)|(Hb & Hb' & Ht)]) Ha; unfold impls_of_type.
   - rewrite He'. unfold tkind in Hk. destruct (mget M (snd e)) as [[n k d ms ifs r ds| | | |]|]; try exact Ha.
     inversion Hk; subst k. exact Ha.
-  - destruct Ht as (n & k & d & ms & ifs & r & ds & ms' & ifs' & ds' & A & B & C & _). rewrite A, B.
+  - destruct Ht as (n & k & d & ms & ifs & r & ds & ms' & ifs' & A & B & C & _). rewrite A, B.
     destruct k; try exact Ha.
     clear A B. revert acc acc' Ha. induction C as [|i i' ifs ifs' Hi Hl IH]; intros acc acc' Ha; simpl; [exact Ha|].
     destruct Hi as ((nm & P & Q) & R1 & R2). rewrite P, Q. apply IH. apply aappend_sim; [exact Hn|exact Ha].
@@ -270,7 +270,7 @@ Proof.
                     (match nlookup (snd e) (s_poss (touch_poss M s)) with Some l => l | None => [] end)))]]).
     { intros k0 -> Hk0. destruct He as (Hf & Hn & [(Hb & He' & Hsc)|(Hb & Hb' & Hts)]).
       - rewrite Ek in Hsc. inversion Hsc; subst. destruct Hk0; discriminate.
-      - destruct Hts as (n & k & d & ms & ifs & r & ds & ms' & ifs' & ds' & A & B & C & _).
+      - destruct Hts as (n & k & d & ms & ifs & r & ds & ms' & ifs' & A & B & C & _).
         unfold tkind in Ek. rewrite A in Ek. inversion Ek; subst k.
         assert (Hpo : exists l l', possible_of M s (snd e) = Some l /\ possible_of M s' (snd e') = Some l' /\ Forall2 (nsim M tm tm') l l').
         { unfold possible_of. rewrite A, B. destruct Hk0 as [-> | ->].
